@@ -303,7 +303,8 @@ fn sweep(conj: bool, t: &[&str]) -> Outcome {
     for q in q1..=q2 {
         let op = Opt { q, b, g, ext: e, ff: 8, fr: 0 };
         let Some(l) = level(hname, &op, l2 as u8, &modulus, conj) else {
-            return Outcome::ok("bad-op");
+            // the context is refused by Context::read_from (trace length / LDE domain size above u32::MAX)
+            return Outcome::ok("noctx");
         };
         let desc = format!("q={} b={} g={} ext={} log2len={} bits={} cr={}", q, b, g, e, l2, fb, cr);
         if conj {
@@ -468,7 +469,7 @@ impl<'a> HJob for Validate<'a> {
 fn exec_validate(t: &[&str]) -> Outcome {
     let Some(x) = parse_policy(t) else { return Outcome::ok("bad-op") };
     let Some(acc) = mk_acceptable(&x.pol) else { return Outcome::ok("bad-op") };
-    let Some(ctx) = make_ctx(1, &x.opt, x.log2len, &x.modulus) else { return Outcome::ok("bad-op") };
+    let Some(ctx) = make_ctx(1, &x.opt, x.log2len, &x.modulus) else { return Outcome::ok("noctx") };
     let proof = dummy_proof(ctx);
     let r = dispatch(&x.hname, Validate { acc: &acc, proof: &proof }).unwrap();
     let out = match &r {
@@ -711,7 +712,7 @@ fn exec_verify(t: &[&str]) -> Outcome {
     let Some(acc) = mk_acceptable(&x.pol) else { return Outcome::ok("bad-op") };
     let Some((bytes, result)) = get_proof(t[0], &cfg) else { return Outcome::ok("bad-op") };
     let mut proof = Proof::from_bytes(&bytes).expect("own proof");
-    let Some(ctx) = make_ctx(2, &x.opt, x.log2len, &x.modulus) else { return Outcome::ok("bad-op") };
+    let Some(ctx) = make_ctx(2, &x.opt, x.log2len, &x.modulus) else { return Outcome::ok("noctx") };
     let mutated = x.opt != cfg.opt || x.log2len != cfg.log2len || x.modulus != airmod;
     proof.context = ctx;
     let proven_level =
@@ -752,6 +753,12 @@ fn exec_verify(t: &[&str]) -> Outcome {
             Err(want) => {
                 if out != want {
                     o = o.fail(format!("verify.policy.{}", x.pol.kind), format!("got `{}` but the policy says `{}`", out, want));
+                }
+            },
+            Ok(()) if (x.opt.q as u128) >= ((1u128 << x.log2len) * x.opt.b as u128) => {
+                // more queries than points in the LDE domain: refused right after the policy check
+                if out != "err options" {
+                    o = o.fail("verify.queries-vs-domain", format!("{} queries over a domain of {} points: `{}`", x.opt.q, (1u128 << x.log2len) * x.opt.b as u128, out));
                 }
             },
             Ok(()) => {
@@ -1208,8 +1215,8 @@ impl Prop for P {
             "opts" | "bits" | "conj" | "prov" | "alpha" => t[0].to_string(),
             _ => "malformed".into(),
         };
-        let o = if out == "bad-op" {
-            "bad-op".to_string()
+        let o = if out == "bad-op" || out == "noctx" {
+            out.to_string()
         } else if out.starts_with("err") {
             out.split(' ').take(2).collect::<Vec<_>>().join("-")
         } else if out == "panic" || out == "hang" || out == "abort" || out == "pass" {
@@ -1225,7 +1232,7 @@ impl Prop for P {
         None
     }
     fn rule(&self) -> &'static str {
-        "conj: the full grid blowup {2..128} x extension 1..3 x trace length 2^3..2^32 (+2^33..2^63 read from bytes) x field {62,64,128 bits} \
+        "conj: the full grid blowup {2..128} x extension 1..3 x trace length 2^3..2^32 (+2^33..2^63; a context is read from bytes, sizes above u32::MAX give `noctx`) x field {62,64,128 bits} \
          x grinding x hasher, each line sweeping queries 1..255 and comparing with the documented formula and with the neighbours q+1, g+1, ext+1 and \
          the next larger collision resistance (quick: grinding {0,1,16,31,32} and collision resistance {96,124,128}; thorough: grinding 0..32 and eleven \
          hashers); prov: seeded dense sample of the proven estimate (windows of queries, every 16th line the whole range 1..255) compared bit-for-bit \
